@@ -40,7 +40,8 @@ def check_tables(ctx):
         except Exception as ex:   # a table that cannot even be read is a violation of its clause
             ctx.violation("tables|unreadable|Taylor%dD|%s" % (dim, type(ex).__name__),
                           "class tables of Taylor%dD cannot be read: %r" % (dim, ex))
-    fails, infos, results = tlc.run_cases("Check_C16", cases, shards=2, timeout=900)
+    _, infos, results = tlc.run_cases("Check_C16", cases, shards=2, timeout=900)
+    fails = H.case_fails(results, len(results))      # (clause names are long: TLC wraps them over several lines)
     for r in results:
         ctx.add_model(r)
     for i, c in enumerate(cases):
@@ -98,7 +99,11 @@ def make_config(rng, dim, fam, quick, variant):
         # third slot: a zeros() object, as the block-assembly code of the Green function uses it
         r, c = F["zshapes"][0]
         inits = [objs + [{"sc": False, "r": r, "c": c, "ex": False, "full": True,
-                          "E": {n: (H.LMAX, {}) for n in range(0, 3)}}]]
+                          "E": {n: (H.LMAX, {}) for n in range(0, 5)}}]]
+    if variant % 3 == 1:
+        # third slot: an expansion without terms, the accumulator of `acc = Taylor(); acc += term` loops
+        sc, r, c = F["shapes"][0]
+        inits = [objs + [{"sc": sc, "r": r, "c": c, "ex": True, "full": False, "E": {}}]]
     mats = noncommuting(rng) if F["mats"] == "rand" else F["mats"]
     consts = [H.rand_matrix(rng, 2, 2, vals=(-1, 1, 2))] if F["consts"] == "rand" else F["consts"]
     keys = [dict(zip(("r1", "r2", "c1", "c2", "sc"), k)) for k in F["keys"]]
@@ -112,7 +117,7 @@ def make_config(rng, dim, fam, quick, variant):
                       "N": 2 if quick else rng.choice((2, 3)), "pre": [1, rng.choice((1, -1)), 2, 1, 1][:4], "r": r, "c": r})
     cons = {"Dim": dim, "Inits": inits, "Scalars": [2] if quick else [-1, 2], "Mats": mats[:1] if quick else mats,
             "Consts": consts, "TruncNs": [2] if quick else [1, 3], "Keys": keys, "Bases": bases,
-            "ZShapes": [list(z) for z in F["zshapes"]], "ZMin": 0, "ZMax": 2, "fam": fam}
+            "ZShapes": [list(z) for z in F["zshapes"]], "ZMin": 0, "ZMax": 4, "fam": fam}
     return cons
 
 
@@ -242,7 +247,8 @@ def machine_check(cons, depth, npts, all_targets, workers=2):
                     "raised|%s|%s|%s|%s" % (cls, fam, name, type(ex).__name__),
                     "%s (%s coefficients): history %s: the call %s raised %s: %s"
                     % (cls, fam, hist, canon, type(ex).__name__, ex),
-                    {"class": cls, "family": fam, "history": hist, "constants": _plain(cons)}))
+                    {"class": cls, "family": fam, "history": hist, "constants": _plain(cons),
+                     "run": [depth, npts, all_targets]}))
                 dead = True
                 obs[hist] = {"skip": True, "objs": []}
                 continue
@@ -262,10 +268,14 @@ def machine_check(cons, depth, npts, all_targets, workers=2):
     for h, ob in obs.items():
         if not ob["skip"]:
             out["cases"].append(((cls, fam, h), h in last))
-    for p in res2.prints("FAIL"):
+    failed = H.prints(res2, "FAIL")
+    bad = {p[1] for p in failed}
+    for p in failed:
         hist, slot, clause = p[1], p[2], p[3]
         if clause == "unobserved":
             raise tlc.TLCError("history %s of the model was not replayed" % hist)
+        if any(hist[:i] in bad for i, ch in enumerate(hist) if ch == "/"):
+            continue        # an earlier step of this history already failed: report the first divergence only
         name, args = last.get(hist, ("Init", []))
         role = role_of(name, args, slot) if name != "Init" else "initial"
         out["violations"].append((
@@ -276,8 +286,11 @@ def machine_check(cons, depth, npts, all_targets, workers=2):
                "the result of the call is wrong" if role == "result"
                else "an object the call must not touch changed: side effect / shared storage"),
             {"class": cls, "family": fam, "history": hist, "slot": slot, "clause": clause,
-             "constants": _plain(cons), "observed": obs[hist]["objs"][slot - 1]}))
-    out.update(graph_states=res.distinct, histories=len(obs), steps=nsteps, skipped=skipped)
+             "constants": _plain(cons), "run": [depth, npts, all_targets], "observed": obs[hist]["objs"][slot - 1]}))
+    calls = {}
+    for name, args in last.values():
+        calls[name] = calls.get(name, 0) + 1
+    out.update(graph_states=res.distinct, histories=len(obs), steps=nsteps, skipped=skipped, calls=calls)
     return out
 
 
@@ -304,19 +317,60 @@ def _plain(v):
     return v
 
 
+def _unplain(cons):
+    """Inverse of _plain for the constants of a configuration (replay files)."""
+    import ast
+    cons = dict(cons)
+    pools = []
+    for pool in cons["Inits"]:
+        objs = []
+        for o in pool:
+            if o is not None:
+                o = dict(o)
+                o["E"] = {int(n): (t[0], {ast.literal_eval(e): m for e, m in t[1].items()}) for n, t in o["E"].items()}
+            objs.append(o)
+        pools.append(objs)
+    cons["Inits"] = pools
+    return cons
+
+
+def replay(ctx):
+    payload = json.load(open(ctx.replay))["payload"]
+    if "constants" not in payload:           # a table clause: the tables are re-read and re-checked
+        return check_tables(ctx)
+    depth, npts, allt = payload["run"]
+    r = _job((_unplain(payload["constants"]), depth, npts, allt))
+    if "error" in r:
+        raise tlc.TLCError(r["error"])
+    for distinct, generated, cmd in r["models"]:
+        ctx.states += distinct
+        ctx.transitions += generated
+    for key, nontrivial in r["cases"]:
+        ctx.case(key, nontrivial=nontrivial)
+    for key, what, pl in r["violations"]:
+        ctx.violation(key, what, pl)
+
+
 MENUS = {
     # the quick tier splits the calls over two menus (each with the in-place sums, copies and products that make
     # aliasing visible); the thorough tier issues every call everywhere
-    "arith": ["Add", "Sub", "Mul", "IAdd", "ISub", "Neg", "Copy", "Scalar", "IScalar", "AddConst", "Truncate",
-              "ITruncate", "Reduce"],
+    "arith": ["Add", "Sub", "Mul", "IAdd", "ISub", "Neg", "Copy", "IScalar", "AddConst", "Truncate", "Reduce"],
     "struct": ["Add", "IAdd", "Mul", "Copy", "LDot", "RDot", "ILDot", "IRDot", "Reduce", "Separate", "Slice",
                "SetSlice", "Zeros", "Construct", "Truncate"],
+    "blocks": ["IAdd", "ISub", "Copy", "Mul", "Reduce", "Separate", "Slice", "SetSlice", "Zeros", "Construct", "ILDot",
+               "Scalar", "ITruncate"],
+    # depth-3 menus (thorough tier)
+    "alias3": ["Add", "IAdd", "ISub", "Copy", "Mul", "Reduce"],
+    "struct3": ["IAdd", "Slice", "SetSlice", "Zeros", "Copy", "Separate", "Reduce"],
+    "dot3": ["ILDot", "RDot", "IAdd", "ITruncate", "Neg", "Copy", "IScalar"],
 }
 
 
 def run(ctx):
     import multiprocessing as mp
     from concurrent.futures import ProcessPoolExecutor
+    if ctx.replay:
+        return replay(ctx)
     quick = ctx.tier == "quick"
     ctx.rule = ("index tables of both classes compared entry by entry with their definition; every call history of "
                 "TaylorObj (pool of 3, depth %s, arithmetic calls and their in-place twins) replayed on real Taylor3D "
@@ -325,15 +379,20 @@ def run(ctx):
                 % ("2" if quick else "2 (all targets, 6 points) and 3"))
     plan = []   # (dim, family, variant, menu, depth, points, all targets)
     if quick:
-        plan = [(3, "m22", 0, "arith", 2, 3, False), (3, "mix", 2, "struct", 2, 3, False),
-                (2, "mix", 1, "arith", 2, 3, False), (2, "m11", 2, "struct", 2, 3, False)]
+        plan = [(3, "m22", 4, "arith", 2, 3, False), (3, "mix", 2, "struct", 2, 3, False),
+                (2, "mix", 0, "arith", 2, 3, False), (2, "m11", 2, "blocks", 2, 3, False)]
     else:
         for dim in (3, 2):
-            for v in range(3):
-                for fam in ("s", "m11", "m22", "mix"):
-                    plan.append((dim, fam, v, None, 2, 6, fam in ("s", "m11")))
-            for v, (fam, menu) in enumerate((("s", None), ("m22", "arith"), ("mix", "struct"), ("m22", "struct"))):
-                plan.append((dim, fam, v + 1, menu, 3, 3, False))
+            # depth 2, every call, larger menus of constants; variants 0 (free slot), 1 (empty accumulator), 2 (zeros())
+            m22v, m11v = ((0, 1), (1,)) if dim == 3 else ((0, 2), (2,))
+            for fam, variants, allt in (("s", (0,), True), ("s", (1,), False), ("m11", m11v, False),
+                                        ("m22", m22v, False), ("mix", (0, 2), False)):
+                for v in variants:
+                    plan.append((dim, fam, v, None, 2, 4, allt))
+            # depth 3 on focused menus
+            plan += [(dim, "m22", 0, "alias3", 3, 3, False), (dim, "mix", 2, "struct3", 3, 3, False),
+                     (dim, "m11", 0, "dot3", 3, 3, False)]
+        plan.sort(key=lambda t: -t[4])      # the long depth-3 runs first
     jobs = []
     for dim, fam, variant, menu, depth, npts, allt in plan:
         cons = make_config(ctx.rng, dim, fam, quick or depth == 3, variant)
@@ -360,6 +419,14 @@ def run(ctx):
             ctx.violation(key, what, payload)
         summary.append({k: r[k] for k in ("class", "family", "menu", "depth", "graph_states", "histories", "steps",
                                           "skipped")})
+    calls = {}
+    for r in results:
+        for name, cnt in r["calls"].items():
+            calls[name] = calls.get(name, 0) + cnt
+    ctx.info("histories_by_last_call", dict(sorted(calls.items())))
+    never = sorted(set(ROLE_ARGS) - set(calls))
+    if never:
+        raise tlc.TLCError("calls never issued by any configuration (vacuous): %s" % never)
     ctx.info("machine_runs", summary)
     ctx.info("skipped_calls", sum(s["skipped"] for s in summary))
     ctx.sample({"machine": summary[0], "example_history": "I1/Add(1,2,3)/IAdd(3,2)"})
